@@ -40,7 +40,7 @@ ALGS = {
 }
 CLASSREFS = ["urn:oasis:names:tc:SAML:2.0:ac:classes:InternetProtocolPassword", "urn:oasis:names:tc:SAML:2.0:ac:classes:PasswordProtectedTransport",
              "urn:oasis:names:tc:SAML:2.0:ac:classes:unspecified", "https://refeds.org/profile/mfa"]
-IDENT_CLASSES = ["plain", "xml-special", "lookalike-markup", "multibyte", "padded", "long", "many-values", "mixed"]
+IDENT_CLASSES = ["plain", "xml-special", "lookalike-markup", "multibyte", "padded", "long", "many-values", "mixed", "repeated-values", "typed-lookalikes"]
 
 
 def identity_for(cls, rng):
@@ -61,6 +61,15 @@ def identity_for(cls, rng):
         return {"displayName": [gen.word(rng, 3000, 6000)], "mail": [gen.word(rng, 200, 300) + "@example.org"]}
     if cls == "many-values":
         return {"eduPersonEntitlement": ["urn:x:%d:%s" % (i, gen.word(rng, 2, 6)) for i in range(60)], "uid": ["u"]}
+    if cls == "repeated-values":
+        # the same value more than once in one attribute, the same value list under two attributes, one value shared by two attributes
+        w = gen.word(rng, 3, 6)
+        return {"eduPersonAffiliation": ["member", "staff", "member"], "eduPersonEntitlement": ["urn:x:a", "urn:x:a", "urn:x:a", "urn:x:b"],
+                "givenName": [w], "displayName": [w], "sn": [w, w]}
+    if cls == "typed-lookalikes":
+        # text that looks like another type or like nothing: carried as the text it is
+        return {"uid": ["0"], "givenName": ["true", "false", "None", "null"], "sn": ["1.0", "1e3", "-0", "007"], "mail": ["2024-01-01T00:00:00Z"],
+                "displayName": ["urn:oasis:names:tc:SAML:2.0:nameid-format:transient"]}
     ident = gen.identity(rng, hostile=True, lo=3, hi=8)
     for k in list(ident):
         ident[k] = [v.replace("\r", " ").replace("\x00", "").replace("\x7f", "") for v in ident[k]]
